@@ -197,6 +197,11 @@ func (x *Exec) assume(c *Term) bool {
 	if x.spec {
 		panic(specFail{})
 	}
+	if x.pos < x.prefixLen && x.concrete == nil {
+		// replaying an inherited prefix: the forking path passed this assumption under the same path condition
+		x.sol.Assert(c)
+		return true
+	}
 	if !x.sat(c) {
 		return false
 	}
